@@ -1,0 +1,51 @@
+//go:build verif
+
+package server
+
+import (
+	"sort"
+
+	"github.com/openconfig/gribigo/rib"
+
+	spb "github.com/openconfig/gribi/v1/proto/service"
+)
+
+// VerifSession is a read-only copy of one session's state (verification hook).
+type VerifSession struct {
+	ID           string
+	SetParams    bool
+	Persist      bool
+	ExpectElecID bool
+	FIBAck       bool
+	LastElecID   *spb.Uint128
+}
+
+// VerifElection returns the election state (verification hook).
+func (s *Server) VerifElection() (*spb.Uint128, string) {
+	s.elecMu.RLock()
+	defer s.elecMu.RUnlock()
+	return s.curElecID, s.curMaster
+}
+
+// VerifSessions returns the session table sorted by id (verification hook).
+func (s *Server) VerifSessions() []VerifSession {
+	s.csMu.RLock()
+	defer s.csMu.RUnlock()
+	out := []VerifSession{}
+	for id, c := range s.cs {
+		v := VerifSession{ID: id}
+		if c != nil {
+			v.SetParams = c.setParams
+			v.LastElecID = c.lastElecID
+			if c.params != nil {
+				v.Persist, v.ExpectElecID, v.FIBAck = c.params.Persist, c.params.ExpectElecID, c.params.FIBAck
+			}
+		}
+		out = append(out, v)
+	}
+	sort.Slice(out, func(i, j int) bool { return out[i].ID < out[j].ID })
+	return out
+}
+
+// VerifRIB returns the server's RIB (verification hook).
+func (s *Server) VerifRIB() *rib.RIB { return s.masterRIB }
